@@ -18,7 +18,8 @@ import (
 // every cycle without interference (writes succeeding).
 
 func c05Base(r *rand.Rand, kind string, mapKind string) *Scenario {
-	fan := FanSpec{Kind: kind, NeverStop: false, HasRpm: r.Intn(2) == 0, HasEnable: true, HasPwm: true, SimMin: 0, SimMax: 255}
+	kind, home := homeKind(r, kind)
+	fan := FanSpec{Kind: kind, HomePath: home, NeverStop: false, HasRpm: r.Intn(2) == 0, HasEnable: true, HasPwm: true, SimMin: 0, SimMax: 255}
 	if kind == "hwmon" && r.Intn(2) == 0 {
 		mn, mx := genLimits(r)
 		fan.CfgMin, fan.CfgMax = iptr(mn), iptr(mx)
@@ -45,7 +46,7 @@ func checkC05(ctx *Ctx, sc *Scenario) {
 	prevDevAfter := -1
 	runScenario(ctx, sc, func(w *World, rec *CycleRecord) bool {
 		ctx.Eval(1)
-		class := fmt.Sprintf("%s:%s:%s", sc.Fan.Kind, sc.Map.Kind, sc.Loop.Kind)
+		class := fmt.Sprintf("%s:%s:%s", sc.Fan.Label(), sc.Map.Kind, sc.Loop.Kind)
 		if rec.Panic != "" {
 			ctx.Violation("panic-in-cycle:"+class, rec.Panic, sc)
 			return true
